@@ -33,6 +33,7 @@ impl NextBlockHeaders {
 }
 
 //@extract file=canister/src/blocktree.rs item="struct CachedBlock"
+//@ rewrite R2? "#\[derive\(([^\]]*)\)\]" => ""
 //@ rewrite R3 "cache: Cache,\s*" => ""
 //@end
 
